@@ -62,6 +62,7 @@ MNext ==
   \/ (~UsePolicies /\ Crash /\ UNCHANGED <<policy, calln, hist>>)
 
 MSpec == MInit /\ [][MNext]_mvars
+MLiveSpec == MSpec /\ WF_mvars(MNext)
 
 Terminated == result # "running"
 EmitSchedule ==
